@@ -712,9 +712,17 @@ class C30(core.Check):
             stmt = '(SReqs 3 [] %d)' % info['status'][1]
         sel = info['sel']
         ap_idx = sel.index(info['ap']) if info['ap'] in sel else 0
+        vp_term = G.coq_vp(view)
+        if not info['text']:
+            # the viewport the model starts from is computed from the VIEW statement that was issued (before or
+            # after the page selections of the setup), not read from the implementation: selecting a page must keep it
+            base = '(VP false 0 0 %d %d %d %d)' % (info['w'] - 1, info['h'] - 1, info['w'], info['h'])
+            v = case['view']
+            vp_term = base if not v else '(vp_set %s %d %d %d %d %s)' % (base, v[0], v[1], v[2], v[3],
+                                                                       'true' if v[4] else 'false')
         return '(run_case %s %d %d %d %d %d %d %s %s)' % (
             'true' if info['text'] else 'false', info['bpp'], info['w'], info['h'], len(sel), ap_idx, case['bg'],
-            G.coq_vp(view), stmt)
+            vp_term, stmt)
 
     # ------------------------------------------------------------------ property oracle (implementation only)
     def oracle(self, case, out):
